@@ -14,6 +14,11 @@ use std::sync::OnceLock;
 // ---------------------------------------------------------------------------
 
 fn gen_oct(rng: &mut Rng, max: usize) -> Hx {
+    if max >= 8 && rng.chance(1, 8) {
+        // bytes that matter to the transport layer underneath: zero runs, 1b runs, look-alikes
+        let n = rng.range(4, max.min(24));
+        return Hx(crate::gen::payload_tokens(rng, n));
+    }
     let n = match rng.below(10) {
         0 => 0,
         1 => rng.range(14, 17),
@@ -677,6 +682,7 @@ pub const STRUCT_OPS: &[&str] = &[
     "substitute-field",
     "long-field",
     "wide-tlf",
+    "tag-high-bits",
 ];
 
 /// apply one structural mutation; returns its name (None if nothing could be done)
@@ -839,6 +845,28 @@ pub fn mutate_body(rng: &mut Rng, body: &mut Vec<u8>, op: &str) -> Option<String
             body.splice(s.off..s.off + s.tlf_size, t);
             Some(format!("wide-tlf(ty={},off={},extra-nibbles={})", s.ty, s.off, extra))
         }
+        "tag-high-bits" => {
+            // a choice tag (message body, time, list type) re-encoded wider, with garbage above the
+            // bits that carry the known tag value
+            let s = pick_site(rng, &|s| s.ty == TY_LIST && s.len == 2 && s.tlf_size == 1)?;
+            let at = s.off + 1;
+            if at >= body.len() || (body[at] >> 4) != TY_UINT || body[at] & 0x80 != 0 {
+                return None;
+            }
+            let w = (body[at] & 0x0f) as usize;
+            if w < 2 || w > 5 || at + w > body.len() {
+                return None;
+            }
+            let val: Vec<u8> = body[at + 1..at + w].to_vec();
+            let nw = rng.range(val.len() + 1, 8);
+            let mut f = tlf(TY_UINT, nw, 0);
+            for i in 0..nw - val.len() {
+                f.push(if i == 0 || rng.chance(1, 2) { rng.range(1, 255) as u8 } else { 0 });
+            }
+            f.extend_from_slice(&val);
+            body.splice(at..at + w, f);
+            Some(format!("tag-high-bits(off={},{}->{})", at, val.len(), nw))
+        }
         "insert-junk" => {
             let at = rng.below(body.len() + 1);
             let n = rng.range(1, 4);
@@ -853,7 +881,7 @@ pub fn mutate_body(rng: &mut Rng, body: &mut Vec<u8>, op: &str) -> Option<String
 #[derive(Clone, Debug)]
 pub struct Emphasis {
     /// weights over STRUCT_OPS
-    pub ops: [usize; 16],
+    pub ops: [usize; 17],
     /// per cent of runs that stay valid (no mutation at all)
     pub valid: usize,
     /// per cent of mutated runs that also get un-resealed byte faults
@@ -864,7 +892,7 @@ pub struct Emphasis {
 impl Emphasis {
     pub fn balanced() -> Emphasis {
         Emphasis {
-            ops: [6, 4, 4, 4, 3, 3, 3, 6, 4, 4, 3, 3, 4, 5, 2, 1],
+            ops: [6, 4, 4, 4, 3, 3, 3, 6, 4, 4, 3, 3, 4, 5, 2, 1, 3],
             valid: 15,
             post: 35,
             max_entries: 40,
@@ -872,7 +900,7 @@ impl Emphasis {
     }
     pub fn inflation() -> Emphasis {
         Emphasis {
-            ops: [30, 1, 1, 1, 1, 1, 1, 2, 1, 1, 1, 10, 2, 2, 8, 6],
+            ops: [30, 1, 1, 1, 1, 1, 1, 2, 1, 1, 1, 10, 2, 2, 8, 6, 1],
             valid: 5,
             post: 10,
             max_entries: 20,
@@ -880,7 +908,7 @@ impl Emphasis {
     }
     pub fn mid_message() -> Emphasis {
         Emphasis {
-            ops: [6, 4, 3, 4, 3, 3, 3, 8, 4, 6, 3, 3, 3, 4, 1, 1],
+            ops: [6, 4, 3, 4, 3, 3, 3, 8, 4, 6, 3, 3, 3, 4, 1, 1, 2],
             valid: 10,
             post: 50,
             max_entries: 12,
@@ -923,7 +951,8 @@ pub fn gen_file_scn(rng: &mut Rng, _tier: Tier, prop: &str, em: &Emphasis) -> Fi
         }
         if rng.chance(1, 6) {
             let mi = rng.below(msgs.len());
-            msgs[mi].seal = match rng.below(5) {
+            msgs[mi].seal = match rng.below(7) {
+                5 | 6 => Seal::TruncCrc(rng.below(2) as u8),
                 0 => Seal::BadCrc(rng.range(1, 0xffff) as u16),
                 1 => Seal::WrongEnd(*rng.pick(&[0x01u8, 0x76, 0xff])),
                 2 => Seal::NoEnd,
